@@ -281,7 +281,37 @@ def t_quant_scales(V):
         return _run(S.constraint_quant_scale_inf, op) + _run(S.constraint_tens_quant_scale, op)
 
 
-FUNCS = {"t_quant_scales": t_quant_scales, "main_config": main_config, "t_c16": t_c16, "snapshot_dtype": snapshot_dtype, "buffering_arith": buffering_arith, "t_resize": t_resize, "t_strides": t_strides, "t_broadcast": t_broadcast,
+def purpose_total(V, nops):
+    """'Defining tensor purpose' never aborts: the REAL rewrite_mark_tensor_purpose over every order of `nops` operators that share one constant -
+    each operator uses it either as weights or as an ordinary operand (symbolic choice per operator) - ends without the internal
+    'Cannot resolve tensor purpose' assertion: the first consumer fixes the purpose, later ones accept it."""
+    import ethosu.vela.mark_tensors as mt
+    from ethosu.vela.operation import Op
+    from ethosu.vela.tensor import Tensor, TensorPurpose, TensorFormat
+    from ethosu.vela.data_type import DataType
+    from harness.c04 import arch_for
+
+    arch = arch_for("Ethos_U55_128")
+    shared = Tensor([4, 4], DataType.int8, "shared_constant")
+    shared.ops = [_O(type=Op.Const, ofm=shared)]
+    ops = []
+    for i in range(nops):
+        as_weights = bool(V.bool("op%d_uses_it_as_weights" % i))
+        x = Tensor([1, 4], DataType.int8, "x%d" % i)
+        y = Tensor([1, 4], DataType.int8, "y%d" % i)
+        y.consumer_list = [object()]
+        op = _O(type=Op.FullyConnected if as_weights else Op.Add, inputs=[x, shared], outputs=[y], ifm=x, ofm=y, attrs={},
+                get_weight_tensors=(lambda: [shared]) if as_weights else (lambda: []))
+        ops.append(op)
+    try:
+        for op in ops:
+            mt.rewrite_mark_tensor_purpose(op, arch)
+    except AssertionError as e:
+        return [("tensor purposes are resolved without an internal assertion (%s)" % str(e)[:60], False)]
+    return [("tensor purposes are resolved without an internal assertion", shared.purpose in (TensorPurpose.Weights, TensorPurpose.FeatureMap))]
+
+
+FUNCS = {"purpose_total": purpose_total, "t_quant_scales": t_quant_scales, "main_config": main_config, "t_c16": t_c16, "snapshot_dtype": snapshot_dtype, "buffering_arith": buffering_arith, "t_resize": t_resize, "t_strides": t_strides, "t_broadcast": t_broadcast,
          "t_tconv": t_tconv, "main_errors": main_errors}
 
 
@@ -299,6 +329,8 @@ def instances(tier, seed):
     for p in ("SAME", "VALID"):
         out.append(dict(key="constraints_total/tconv/%s" % p, fn="t_tconv", params=dict(padding=p)))
     out.append(dict(key="constraints_total/quant_scales", fn="t_quant_scales", params={}))
+    for n in (2, 3):
+        out.append(dict(key="purpose_total/%d" % n, fn="purpose_total", params=dict(nops=n)))
     from harness import c16, c18
 
     for inst in c18.instances(tier, seed):
